@@ -27,7 +27,7 @@ RULE = ("per run a history of 3-9 operations over up to 3 BEC2 files sharing a p
 REAL = ["bec2format.bec2file", "bec2format.bf3file", "bec2format.crypto", "register_crypto_plugin", "pyaes", "ecdsa"]
 STUBS = ["medium: SimFS", "RNG: SimRng (never repeats, logs call-site class)", "key-generation observer",
          "device model: RefAES/RefCRC/RefP256"]
-PROBES = ["fork-child-and-parent-draw-keys", "bf3-object-shared-between-files", "splice-insert-same-tag", "keyless-constructor", "repeated-write-same-object", "rewrite-with-opaque-block", "splice-different-keys",
+PROBES = ["same-object-two-writer-threads", "fork-child-and-parent-draw-keys", "bf3-object-shared-between-files", "splice-insert-same-tag", "keyless-constructor", "repeated-write-same-object", "rewrite-with-opaque-block", "splice-different-keys",
           "splice-equal-keys", "splice-rejected", "ecc-default-recipient-unwrapped", "three-blocks-unwrapped",
           "two-files-distinct-keys", "ephemeral-points-compared"]
 ASSUMPTIONS = ["'rejected' for a spliced header means: read with decryptors for both blocks raises"]
@@ -46,6 +46,13 @@ def _pool(w):
 
 def gen(st, tier):
     w = st["workload"]
+    if w.random() < 0.04:
+        # two threads write the SAME freshly created keyless Bec2File at once
+        from sim import conc
+        pre, ch = conc.sched_spec(st["schedule"])
+        return {"conc": True, "aes": rbytes(w, 16).hex(), "code": rbytes(w, 8).hex(), "ver": w.randrange(256),
+                "obj": G.bf3_spec(w, max_comps=1, p_enc=0.3, max_len=40), "rng": w.getrandbits(32),
+                "preempt": pre, "choices": ch}
     pool = _pool(w)
     objs = [G.bf3_spec(w, max_comps=2, p_enc=0.3, max_len=80) for _ in range(2)]
     ops = []
@@ -113,7 +120,83 @@ def _body_ok(binary, body_off, key, model):
     return G.compare_bf3(model, got)
 
 
+def _run_conc(case):
+    from sim import conc
+    out = Outcome()
+    bf = env.bec2file
+    state = {}
+
+    def make_bodies(s):
+        fs = SimFS()
+        env.use_fs(fs)
+        rng = prov.SimRng(case["rng"])
+        env.install_rng(rng)
+        cust = bf.SoftwareCustKeyEncryptor(bytes.fromhex(case["aes"]))
+        bec = bf.Bec2File(G.build_bf3(case["obj"], env),
+                          [bf.InitCustKeyAuthBlock(), bf.UpdateAuthBlock(bytes.fromhex(case["code"]), case["ver"])], None)
+        state["fs"], state["bec"] = fs, bec
+
+        def body(i):
+            def fn():
+                h = fs.open("w%d.bec2" % i, "w")
+                try:
+                    bec.write_file(h, [cust])
+                finally:
+                    h.close()
+                return True
+            return fn
+        return [body(0), body(1)]
+    try:
+        dry, cc, pre = conc.run_conc(make_bodies, case["preempt"], case["choices"], first=0)
+        fs, bec = state["fs"], state["bec"]
+        npre = sum(1 for d in cc.decisions if d[3] == "preempt")
+        out.fired["preempt"] += npre
+        out.nontrivial = npre > 0
+        out.probes["same-object-two-writer-threads"] += 1
+        out.ev("conc", tuple(cc.decisions), cc.aborted)
+        narrow = dict(case, preempt=[["abs", p] if isinstance(p, int) else list(p) for p in pre])
+        if any(t.exc is not None for t in dry.threads):
+            out.ev("sequential-raises")
+            return out
+        if cc.aborted or any(t.exc is not None for t in cc.threads):
+            out.fail("C07.concurrent", "raises", "two threads writing the same Bec2File: %s %s" % (
+                cc.aborted, [t.exc for t in cc.threads]), narrow)
+            return out
+        specs = [{"t": "cust", "aes": case["aes"], "ck": None}, {"t": "upd", "code": case["code"], "ver": case["ver"]}]
+        model = G.snapshot_bf3(bec.bf3file)
+        for i in range(2):
+            head, binary = files.binary_of(fs.files["w%d.bec2" % i])
+            hdr, body_off = prov.parse_header(binary)
+            keys = []
+            for (tag, val), sp in zip(hdr, specs):
+                try:
+                    keys.append(prov.device_unwrap(sp, tag, val))
+                except ValueError as e:
+                    out.fail("C07.device", "concurrent-unwrap-" + sp["t"], "file %d: %s" % (i, e), narrow)
+            if len(set(keys)) > 1:
+                out.fail("C07.same-key", "concurrent", "file %d written by one of two concurrent writers of the same "
+                         "object: its blocks wrap different keys %s (schedule %s)" % (i, [k.hex() for k in keys], cc.decisions),
+                         narrow)
+            elif keys:
+                if keys[0] != bec.session_key:
+                    out.fail("C07.same-key", "concurrent-not-object-key", "file %d wraps %s, the object's session key is %s"
+                             % (i, keys[0].hex(), bec.session_key.hex()), narrow)
+                try:
+                    diff = _body_ok(binary, body_off, keys[0], model)
+                except Exception as e:
+                    out.fail("C07.body", "concurrent-rejected", "file %d: the key its blocks wrap does not authenticate the "
+                             "directory: %s" % (i, e), narrow)
+                else:
+                    if diff:
+                        out.fail("C07.body", "concurrent-" + diff[0], diff[1], narrow)
+    finally:
+        env.restore_registry()
+    return out
+
+
 def run(case):
+    if case.get("conc"):
+        return _run_conc(case)
     out = Outcome()
     fs = SimFS()
     env.restore_registry()
@@ -475,6 +558,11 @@ def _writer_encryptors(pool, blocks, opened, env_):
 
 
 def shrink(case):
+    if case.get("conc"):
+        pre = case["preempt"]
+        for i in range(len(pre)):
+            yield dict(case, preempt=pre[:i] + pre[i + 1:])
+        return
     ops = case["ops"]
     for i in range(len(ops) - 1, -1, -1):
         yield dict(case, ops=ops[:i] + ops[i + 1:])
